@@ -554,7 +554,9 @@ def r611(ctx, rep):
         top = ctx.project.need_fn(fq)
         for fn in [top] + list(top.nested.values()):
             listed = set()
-            for x in own_nodes(fn.node):
+            # (a closure also sees what the enclosing function materialised)
+            scope_nodes = list(own_nodes(fn.node)) + (list(own_nodes(top.node)) if fn is not top else [])
+            for x in scope_nodes:
                 if isinstance(x, ast.Assign) and len(x.targets) == 1 and isinstance(x.targets[0], ast.Name) and \
                         isinstance(x.value, (ast.Call, ast.List, ast.ListComp)) and \
                         (not isinstance(x.value, ast.Call) or norm(x.value.func) in ('list', 'tuple', 'sorted')):
